@@ -135,7 +135,12 @@ var $methodVal = (recv, name) => {
 // value was made, and every call works on its own copy of it (the method may assign to its receiver).
 var $methodValCopy = (recv, name, typ) => {
     return function(...args) {
-        return $clone(recv, typ)[name](...args);
+        $stackDepthOffset--; /* this frame is not a Go frame: recover() in the method counts call depth */
+        try {
+            return $clone(recv, typ)[name](...args);
+        } finally {
+            $stackDepthOffset++;
+        }
     };
 };
 
